@@ -80,6 +80,10 @@ def grid(tier: str) -> List[Dict[str, Any]]:
                         "sibling": True, "jitter": jit})
 
         pts.append({"q": q, "probe": probe, "id": id_, "port": port, "fam": fam, "age": age, "socks": socks, "jitter": jit})
+        if port != 5353 and socks in ("single", "single6") and age in ("fresh", "5000s") and not probe:
+            for pre in (50, 390):
+                pts.append({"q": q, "probe": probe, "id": id_, "port": port, "fam": fam, "age": age, "socks": socks, "jitter": jit,
+                            "pre_tc_ms": pre})
         if q == "ptr-qm" and fam == "v4" and age == "fresh" and not probe and jit == jitters[0] and socks != "single6":
             pts.append({"fam": "big", "socks": socks, "port": port, "id": id_ or 0x3a7b if port != 5353 else id_})
         if fam == "v6" and age in ("400ms", "fresh", "30s+1", "5000s"):
@@ -186,6 +190,15 @@ def run_point(p: Dict[str, Any], verbose: bool = False) -> Tuple[Optional[Dict[s
             w.settle()
             w.advance_to_ms(tq)
         n_before = len(w.net.trace)
+        if p.get("pre_tc_ms"):
+            # a multicast querier on the same machine (port 5353) is in the middle of a truncated query of its own: that is
+            # another querier, and nothing of it belongs into the reply to this one
+            w.advance_to_ms(tq - p["pre_tc_ms"])
+            tc = wire.query([("Q", "_b._tcp.local.", 12, 1)], answers=[("PTR", "_b._tcp.local.", 1, 4500, "zz._b._tcp.local.")],
+                            id_=0, tc=True)
+            rx.protocol.datagram_received(tc, (src[0], 5353) + tuple(src[2:]))
+            w.settle()
+            w.advance_to_ms(tq)
         rx.protocol.datagram_received(data, src)
         w.settle()
         w.advance(1500)
@@ -317,6 +330,8 @@ def run_point(p: Dict[str, Any], verbose: bool = False) -> Tuple[Optional[Dict[s
             problems.append(f"multicast: {sorted(forbidden & got_any, key=repr)} multicast although the QU question "
                             f"should be answered by unicast alone (multicast {tq - last_mc.get(next(iter(no_mc)), 0):.0f} ms ago)")
         allowed_any = want_now | want_any | {nsec_key(i) for i in mc_now_maybe}
+        if p.get("pre_tc_ms"):
+            allowed_any |= {nsec_key(i) for i in dict(rm.answer(REG, [("_b._tcp.local.", 12)], []).records)}
         if not got_any <= allowed_any:
             problems.append(f"multicast: unexpected answers {sorted(got_any - allowed_any, key=repr)}")
         n_send = 1 if p["socks"] in ("single", "single6") else 2
